@@ -167,7 +167,8 @@ func pullDown(oldroot, newroot *etree.Element) {
 			if !isDecl {
 				continue
 			}
-			if spaces[space] != "" {
+			// the nearest declaration wins, also when it is xmlns=""
+			if _, seen := spaces[space]; seen {
 				continue
 			}
 			spaces[space] = attr.Value
